@@ -8,7 +8,7 @@ THEOREMS = ["C08_delay_encoding", "C08_no_overflow", "C08_no_indeterminate_byte"
             "C08_sample_total_header", "C08_gd3_offset", "C08_loop_consistent", "C08_gd3_eleven_strings", "C08_clocks_declared",
             "C08_pcm_stream_in_block",
             # GD3 text: the writer's UTF-8 decoder against the reader-side encoder
-            "C08_utf8_decode_encode", "C08_utf8_valid_tag", "C08_utf8_decoder_scalars", "C08_gd3_renders_tag",
+            "C08_utf8_decode_encode", "C08_utf16_encode_decode", "C08_utf8_valid_tag", "C08_utf8_decoder_scalars", "C08_gd3_renders_tag",
             # whole songs: Platform::vgm_export + MD_Driver
             "C08_invalid_tag_range_error", "C08_md_export_hyps", "C08_full_partial", "C08_pcm_windows_are_samples",
             "C08_full_for_reachable_banks", "C08_pcm_offset_counterexample", "C08_example_pcm_bank", "C08_example_pcm_ops", "mdPokes_eq"]
